@@ -66,7 +66,7 @@ prop("C07",
      note="Proof covers the in-place interpreter. Not decided: 'effectively unlimited budget reports finished' for the compiled back ends (needs C01-C03 in full).")
 
 prop("C08",
-     units=[("verus", "u7_inplace", None), ("kani", "u2_tape", None), ("kani", "u5_bcint_ops", None)],
+     units=[("verus", "u7_inplace", None), ("kani", "u2_tape", None), ("kani", "u5_bcint_ops", None), ("kani", "u6b_jit_shims", None)],
      level="model_checking",
      technique="Verus proof of the in-place stop path (stopped configuration, no later event) + loop-free Kani contract harnesses for Context::input/output result mapping over all reader/writer outcomes",
      design_ref="DESIGN.md section 4-U7/U2, 5-C08",
@@ -82,7 +82,7 @@ prop("C02",
      note="Also decided: the generator passes parameter_reordering, strip_noops, record_branch_targets, count_temps (unit u9). NOT decided: ops::emit / build_threaded_code (op selection, operand word order, branch patching: Kani needs > 65 GB for the op_match! expansion), the other bytecode-generator passes (emit_block, dead_store_elim, allocate_temps, zeroing_move_detection: std hash collections, Kani does not finish), the optimiser in front (C01), the release-build tail-call dispatcher. A defect there is not detected by this check.")
 
 prop("C06",
-     units=[("kani", "u2_tape", None), ("kani", "u5_bcint_ops", None), ("kani", "u2b_bccontext", None)],
+     units=[("kani", "u2_tape", None), ("kani", "u5_bcint_ops", None), ("kani", "u2b_bccontext", None), ("kani", "u6b_jit_shims", None), ("kani", "u6_jit", None)],
      level="model_checking",
      technique="Kani contract harnesses: Memory operations over the abstract view from arbitrary well-formed states; window invariant and in-window dereferences of every threaded op (buffer == window, so any stray access is out of bounds for CBMC)",
      design_ref="DESIGN.md section 4-U2/U5, 5-C06",
